@@ -153,6 +153,9 @@ class Repo:
                 from .inline import expand_unknown_helpers
 
                 try:
+                    from .inline import unroll_literal_loops
+
+                    unroll_literal_loops(tree)
                     tree, exp = expand_unknown_helpers(tree, name, self.known_functions)
                     if exp:
                         self.expanded_helpers[rel] = sorted(set(exp))
